@@ -377,6 +377,26 @@ def run(ctx):
             chk.bad(R4, f.qualname, f'except {", ".join(handler_types(h))}', 'an exception handler in the backup path continues normally: a failed step would still yield a "successful" backup', where=f'{f.module.relpath}:{h.lineno}')
     else:
         chk.ok(R4, BACKUP, 'no swallowing handler in backup_container / _sqlite_backup / backup_auto_folders', detail='errors propagate to the caller')
+    # command-line boundary: a failed backup ends the process with a non-zero status
+    cli = prog.modules.get('cli')
+    ncli = 0
+    if cli is not None:
+        for f in prog.all_functions():
+            if f.module is not cli or isinstance(f.node, ast.Lambda):
+                continue
+            for n in walk_local(f.node):
+                if isinstance(n, ast.Try) and any(isinstance(c, ast.Call) and isinstance(c.func, ast.Attribute) and c.func.attr in ('backup_auto_folders', 'backup_container') for b in n.body for c in ast.walk(b)):
+                    for h in n.handlers:
+                        ncli += 1
+                        last = h.body[-1] if h.body else None
+                        exits = isinstance(last, ast.Expr) and isinstance(last.value, ast.Call) and norm(last.value.func) in ('sys.exit', 'exit', 'ctx.exit') and last.value.args \
+                            and isinstance(last.value.args[0], ast.Constant) and last.value.args[0].value not in (0, None, False)
+                        if always_raises(h.body) or exits:
+                            chk.ok(R4, f.qualname, f'except {", ".join(handler_types(h))}: ... exit non-zero', detail='the command reports a failed backup through its exit status')
+                        else:
+                            chk.bad(R4, f.qualname, f'except {", ".join(handler_types(h))}', 'the command-line backup catches the failure and ends normally (exit status 0): scripts and cron jobs would take a '
+                                    'failed, partial backup for a good one', where=f'{f.module.relpath}:{h.lineno}')
+        chk.require(ncli >= 1, 'cli: the try/except around the backup call was not found')
     # the dump result is validated or its failure raises
     isfile = [n for n in walk_local(fn.node) if isinstance(n, ast.If) and 'is_file' in norm(n.test)]
     if isfile and (always_raises(isfile[0].orelse) or always_raises(isfile[0].body)):
